@@ -13,8 +13,28 @@
 //!   vector x matrix / matrix x vector, `fold(0., +)` of the products for vdot / inner / dot, one conversion to the element type at
 //!   the end).  Equal = same number (`==`, so +0 and -0 agree) or both NaN.
 //! Every case is run on BOTH receivers (plain `Array<T>` and `Ok(array)` through `impl … for Result<Array<N>, ArrayError>`).
+//! Part-2 robustness streams (FRAMEWORK.md 6-10):
+//! * `C14.seq <op> <ty> <a> <b> | <op> <ty> <a> <b> | …`: calls executed back to back on one thread, each judged like a single case
+//!   (hidden state: an operand followed by a same-shape rearrangement of its entries, colliding shapes, a refused call followed by a
+//!   valid one, the same arguments through different element types, A-B-A);
+//! * operands that are textually equal are ALSO passed as the very same object (`a.op(&a)`) and must give the same answer;
+//! * every single case is followed directly by the same call on rearranged operands, judged by the native term-list oracle (which has
+//!   just been compared with the model on that case); every case A is re-run after the next case B and must answer identically;
+//! * `<type>` ending in `n` (`i64n`, `f64n`, `i32n`, `f32n`): HUGE operands (16 384 … 140 000 elements) for which the list-backed model
+//!   is too slow; the model driver answers `native` and the case is judged by the native oracle alone.  `C14.tally` (last line) reports
+//!   on how many smaller cases of the same run that oracle was found equal to the model.
 use arrharness::*;
+use std::cell::RefCell;
 use std::panic::{catch_unwind, AssertUnwindSafe};
+use std::sync::atomic::{AtomicUsize, Ordering::Relaxed};
+
+/// counters reported by the `tally` line
+static N_VALIDATED: AtomicUsize = AtomicUsize::new(0);      // cases on which the native term-list oracle was compared with the model (and agreed)
+static N_FOLLOW: AtomicUsize = AtomicUsize::new(0);         // follow-up calls on rearranged operands judged by that oracle
+static N_NATIVE: AtomicUsize = AtomicUsize::new(0);         // huge cases judged by the oracle alone
+static N_ALIAS: AtomicUsize = AtomicUsize::new(0);          // calls with the same object on both sides
+static N_ABA: AtomicUsize = AtomicUsize::new(0);            // A-B-A re-runs
+static N_BUILD: AtomicUsize = AtomicUsize::new(0);          // operands rebuilt through clone_from / FromIterator / IntoIterator
 
 const OPS: [&str; 5] = ["matmul", "dot", "vdot", "inner", "outer"];
 const TYS: [&str; 3] = ["i32", "i64", "f64"];
@@ -94,7 +114,7 @@ fn paired_case(rng: &mut Rng, op: &str, sa: &[usize], sb: &[usize], ca: usize, c
     } else { None }
 }
 
-fn gen(tier: &str, seed: u64, out: &mut dyn FnMut(String)) {
+fn gen_base(tier: &str, seed: u64, out: &mut dyn FnMut(String)) {
     let thorough = tier == "thorough";
     // (i) corpus: the witnesses of the defects of the pinned tree and the suite's own rows
     for l in [
@@ -324,6 +344,254 @@ fn gen(tier: &str, seed: u64, out: &mut dyn FnMut(String)) {
     }
 }
 
+
+// ------------------------------------------------------------------------------------------------ part-2 robustness streams
+
+fn rand_vec(rng: &mut Rng, shape: &[usize], lo: i64, hi: i64) -> Vec<i64> { (0..shape.iter().product::<usize>()).map(|_| rng.range(lo, hi)).collect() }
+
+/// rearrangements of the entries of an operand that keep its shape (what an order-insensitive fingerprint of the values, a checksum,
+/// first/last-entry key or a sum cannot tell apart from the operand itself)
+fn rearrangements(shape: &[usize], e: &[i64]) -> Vec<(&'static str, Vec<i64>)> {
+    let n = e.len(); let mut v = vec![];
+    if shape.len() == 2 {       // the entries of the transpose, poured into the same shape
+        let (r, c) = (shape[0], shape[1]);
+        let mut t = Vec::with_capacity(n); for j in 0..c { for i in 0..r { t.push(e[i * c + j]); } }
+        v.push(("the entries of its transpose in the same shape", t));
+    }
+    if shape.len() >= 2 && shape[0] >= 2 { let k = n / shape[0]; let mut s = e.to_vec(); for x in 0..k { s.swap(x, k + x); } v.push(("its first two rows/slabs swapped", s)); }
+    if n >= 2 {
+        let mut p = e.to_vec(); p[0] += 1; p[n - 1] -= 1; v.push(("first entry + 1, last entry - 1 (same sum)", p));
+        let mut rev = e.to_vec(); rev.reverse(); v.push(("its entries reversed", rev));
+        let mut s = e.to_vec(); s.swap(0, n - 1); v.push(("first and last entry swapped", s));
+        let mut r = e.to_vec(); r.rotate_left(1); v.push(("its entries rotated by one", r));
+    }
+    v.retain(|(_, x)| x.as_slice() != e);
+    v
+}
+
+/// structured n x n matrices (fast paths like to recognise them)
+const N_KINDS: usize = 14;
+fn structured(kind: usize, n: usize, rng: &mut Rng) -> Vec<i64> {
+    let mut m = vec![0i64; n * n];
+    let nz = |rng: &mut Rng| { let v = rng.range(1, 3); if rng.below(2) == 0 { -v } else { v } };
+    match kind {
+        0 => for i in 0..n { m[i * n + i] = (i as i64 + 2) * if i % 2 == 1 { -1 } else { 1 }; },        // diagonal, all entries different
+        1 => for i in 0..n { m[i * n + i] = 3; },                                                         // scalar matrix
+        2 => for i in 0..n { m[i * n + i] = 1; },                                                         // identity
+        3 => { let mut p = rng.perm(n); if n >= 2 && p.iter().enumerate().all(|(i, &x)| i == x) { p.swap(0, 1); } for i in 0..n { m[i * n + p[i]] = 1; } }   // permutation
+        4 => for i in 0..n { for j in i..n { m[i * n + j] = nz(rng); } },                               // upper triangular
+        5 => for i in 0..n { for j in 0..=i { m[i * n + j] = nz(rng); } },                              // lower triangular
+        6 => { let u: Vec<i64> = (0..n).map(|_| nz(rng)).collect(); let v: Vec<i64> = (0..n).map(|_| rng.range(-1, 1)).collect(); for i in 0..n { for j in 0..n { m[i * n + j] = u[i] * v[j]; } } }   // rank one
+        7 => { if n >= 2 { let i = rng.below(n); let mut j = rng.below(n); if i == j { j = (j + 1) % n; } m[i * n + j] = nz(rng); } else { m[0] = 2; } }     // one entry off the diagonal
+        8 => for i in 0..n { m[i * n + (n - 1 - i)] = (i as i64 % 3) + 1; },                             // anti-diagonal
+        9 => {}                                                                                             // zero
+        10 => for i in 0..n { m[i * n + i] = if i == n / 2 { 0 } else { -(i as i64 % 3) - 1 }; },        // diagonal with a zero and negative entries
+        11 => for x in m.iter_mut() { *x = rng.range(-3, 3); },                                           // general
+        12 => for i in 0..n { for j in i..n { let v = rng.range(-3, 3); m[i * n + j] = v; m[j * n + i] = v; } },   // symmetric
+        _ => { for i in 0..n { m[i * n + i] = i as i64 % 3 + 1; } if n >= 2 { m[n - 1] = 1; } }           // diagonal plus one corner entry
+    }
+    m
+}
+
+/// calls on an operand of shape `s` (rank 2 or 3) through every dispatch arm that could memoise something per shape
+fn collision_cases(s: &[usize]) -> Vec<(&'static str, Vec<usize>, Vec<usize>)> {
+    let v = s.to_vec();
+    match s.len() {
+        2 => vec![("matmul", v.clone(), vec![s[1]]), ("matmul", vec![s[0]], v.clone()), ("matmul", v.clone(), vec![s[1], 2]), ("matmul", vec![2, s[0]], v.clone()),
+                  ("inner", v.clone(), vec![2, s[1]]), ("vdot", v.clone(), v.clone()), ("outer", v.clone(), vec![2]), ("dot", vec![s[0]], v.clone()), ("dot", v.clone(), vec![s[1]])],
+        3 => vec![("matmul", v.clone(), vec![s[2]]), ("matmul", v.clone(), vec![s[2], 2]), ("matmul", v.clone(), vec![s[0], s[2], 2]), ("matmul", vec![s[1]], v.clone()), ("matmul", vec![2, s[1]], v.clone()),
+                  ("inner", v.clone(), vec![2, s[2]]), ("vdot", v.clone(), v.clone()), ("outer", vec![2], v.clone())],
+        _ => vec![],
+    }
+}
+
+fn seq_line(parts: &[String]) -> String { format!("seq {}", parts.join(" | ")) }
+
+fn gen_r3(tier: &str, seed: u64, out: &mut dyn FnMut(String)) {
+    let thorough = tier == "thorough";
+    let mut rng = Rng::new(seed ^ 0x14_0003);
+    let mut t = 0usize;
+    let reps = if thorough { 4 } else { 1 };
+
+    // ---- stream 9: aliasing.  Textually equal operands are passed once as two objects and once as the very same object (`a.op(&a)`):
+    // square non-symmetric matrices n = 1..9, vectors, rectangular matrices (inner / outer / vdot; matmul refuses), stacks, 4-D
+    for _ in 0..reps { for n in 1..=9usize {
+        let mut al: Vec<Vec<usize>> = vec![vec![n, n], vec![n], vec![n, (n % 4) + 1], vec![2, n, n], vec![(n % 3) + 1, n]];
+        if n <= 4 { al.push(vec![2, 1, n, n]); al.push(vec![1, n, n]); }
+        for sh in &al { for op in OPS {
+            t += 1; let ty = INT_TYS[t % 6];
+            let len: usize = sh.iter().product();
+            let (lo, hi) = small_range(ty, if op == "vdot" { len.min(70) } else { 9 });
+            let x = rand_arr_in(&mut rng, sh, lo, hi);
+            out(format!("{op} {ty} {x} {x}"));
+        } }
+        for op in OPS { t += 1; let x = tag_off(&[n, n], 1); out(format!("{op} {} {x} {x}", TYS[t % 3])); }
+    } }
+    for fty in ["f64c", "f32c"] { for n in 1..=5usize { for sh in [vec![n, n], vec![n], vec![2, n, n]] { for op in OPS { for _ in 0..reps {
+        let codes: Vec<usize> = (0..sh.iter().product::<usize>()).map(|_| if rng.below(4) == 0 { rng.below(NCLS) } else { ordinary(&mut rng) }).collect();
+        let x = cls_lit(&sh, &codes);
+        out(format!("{op} {fty} {x} {x}"));
+    } } } } }
+
+    // ---- structured operands on either side, n = 2..9: diagonal (distinct / constant / with a zero), identity, permutation, triangular,
+    // rank one, single entry, anti-diagonal, zero, symmetric, nearly diagonal x general and x each other; vectors; stacks; rectangular
+    for n in 2..=9usize { for kind in 0..N_KINDS { for _ in 0..reps {
+        let sq = vec![n, n];
+        let s1 = structured(kind, n, &mut rng); let g = structured(11, n, &mut rng); let s2 = structured(rng.below(N_KINDS), n, &mut rng);
+        for (x, y) in [(&s1, &g), (&g, &s1), (&s1, &s2), (&s2, &s1)] { for op in ["matmul", "dot", "inner"] {
+            t += 1; out(format!("{op} {} {} {}", INT_TYS[t % 6], lit(&sq, x), lit(&sq, y)));
+        } }
+        let v = rand_vec(&mut rng, &[n], -3, 3);
+        for op in ["matmul", "dot"] {
+            t += 1; out(format!("{op} {} {} {}", INT_TYS[t % 6], lit(&[n], &v), lit(&sq, &s1)));
+            t += 1; out(format!("{op} {} {} {}", INT_TYS[t % 6], lit(&sq, &s1), lit(&[n], &v)));
+        }
+        if n <= 6 {
+            let st = vec![2, n, n];
+            let (ab, ba): (Vec<i64>, Vec<i64>) = (s1.iter().chain(g.iter()).cloned().collect(), g.iter().chain(s1.iter()).cloned().collect());
+            t += 1; out(format!("matmul {} {} {}", INT_TYS[t % 6], lit(&st, &ab), lit(&st, &ba)));
+            t += 1; out(format!("matmul {} {} {}", INT_TYS[t % 6], lit(&st, &ba), lit(&st, &ab)));
+            t += 1; out(format!("matmul {} {} {}", INT_TYS[t % 6], lit(&st, &ba), lit(&sq, &s1)));
+            t += 1; out(format!("matmul {} {} {}", INT_TYS[t % 6], lit(&sq, &s1), lit(&st, &ba)));
+        }
+    } } }
+    for n in 2..=9usize {
+        let mut d = vec![0i64; n * (n + 1)]; for i in 0..n { d[i * (n + 1) + i] = i as i64 + 2; }
+        let g = rand_vec(&mut rng, &[n + 1, n], -3, 3);
+        for op in ["matmul", "dot"] {
+            t += 1; out(format!("{op} {} {} {}", INT_TYS[t % 6], lit(&[n, n + 1], &d), lit(&[n + 1, n], &g)));
+            t += 1; out(format!("{op} {} {} {}", INT_TYS[t % 6], lit(&[n + 1, n], &g), lit(&[n, n + 1], &d)));
+        }
+    }
+    // the same with float classes: +0 / -0 off the diagonal, the other operand with inf / NaN / huge entries (0 * inf = NaN must be kept)
+    for fty in ["f64c", "f32c"] { for n in 2..=5usize { for _ in 0..(4 * reps) {
+        let mut d: Vec<usize> = (0..n * n).map(|_| rng.below(2)).collect();
+        for i in 0..n { d[i * n + i] = if rng.below(5) == 0 { rng.below(NCLS) } else { ordinary(&mut rng) }; }
+        let g: Vec<usize> = (0..n * n).map(|_| if rng.below(3) == 0 { rng.below(NCLS) } else { ordinary(&mut rng) }).collect();
+        for op in ["matmul", "dot", "inner"] {
+            out(format!("{op} {fty} {} {}", cls_lit(&[n, n], &d), cls_lit(&[n, n], &g)));
+            out(format!("{op} {fty} {} {}", cls_lit(&[n, n], &g), cls_lit(&[n, n], &d)));
+        }
+    } } }
+
+    // ---- stream 6a: hidden state keyed by shape + a fingerprint of the values: every family, operands below and above 16 / 25 / 64
+    // elements; the call, then DIRECTLY the same call with one operand replaced by a same-shape rearrangement of its entries, then the call again
+    let kmax = if thorough { 6 } else { 4 };
+    for &(n, m, p) in &[(2usize, 2usize, 2usize), (3, 4, 3), (4, 4, 4), (4, 5, 4), (5, 4, 5), (5, 5, 5), (2, 8, 2), (8, 2, 8), (6, 6, 6), (1, 16, 1), (16, 1, 16), (9, 9, 9), (3, 17, 2)] {
+        let mut fams = families(n, m, p, 2);
+        fams.push(("outer", vec![n, m], vec![m, p])); fams.push(("outer", vec![m], vec![p, m]));
+        for (op, sa, sb) in fams {
+            t += 1; let ty = INT_TYS[t % 6];
+            let (lo, hi) = small_range(ty, if op == "vdot" { (n * m).min(70) } else { m });
+            let (a, b) = (rand_vec(&mut rng, &sa, lo, hi), rand_vec(&mut rng, &sb, lo, hi));
+            let mk = |x: &[i64], y: &[i64]| format!("{op} {ty} {} {}", lit(&sa, x), lit(&sb, y));
+            let base = mk(&a, &b);
+            let (ra, rb) = (rearrangements(&sa, &a), rearrangements(&sb, &b));
+            for (_, b2) in rb.iter().take(kmax) { out(seq_line(&[base.clone(), mk(&a, b2), base.clone()])); }
+            for (_, a2) in ra.iter().take(kmax) { out(seq_line(&[base.clone(), mk(a2, &b), base.clone()])); }
+            if let (Some((_, a2)), Some((_, b2))) = (ra.first(), rb.first()) { out(seq_line(&[base.clone(), mk(a2, b2), mk(a2, &b), mk(&a, b2), base.clone()])); }
+        }
+    }
+    // ---- stream 6b: shapes that collide under weak polynomial hashes (multipliers 31, 33, 37, 131, 257), back to back in both orders
+    for (s1, s2) in collision_shape_pairs() {
+        let (c1, c2) = (collision_cases(&s1), collision_cases(&s2));
+        for k in 0..c1.len().min(c2.len()) {
+            if !thorough && (k + t) % 2 == 1 && s1.len() == 3 { continue; }
+            t += 1; let ty = ["i32", "i64", "f64", "f32"][t % 4];
+            let x = format!("{} {ty} {} {}", c1[k].0, rand_arr_in(&mut rng, &c1[k].1, -9, 9), rand_arr_in(&mut rng, &c1[k].2, -9, 9));
+            let y = format!("{} {ty} {} {}", c2[k].0, rand_arr_in(&mut rng, &c2[k].1, -9, 9), rand_arr_in(&mut rng, &c2[k].2, -9, 9));
+            out(seq_line(&[x.clone(), y.clone(), x, y]));
+        }
+    }
+    // ---- stream 6c: a refused call (contracted lengths differ / zero-length operand) directly followed by a valid one
+    for &(n, m, p) in &[(2usize, 3usize, 2usize), (4, 4, 4), (5, 4, 5), (3, 6, 2)] { for (op, sa, sb) in families(n, m, p, 2) {
+        t += 1; let ty = INT_TYS[t % 6];
+        let (lo, hi) = small_range(ty, if op == "vdot" { (n * m).min(70) } else { m });
+        let mut sb_bad = sb.clone(); let k = sb_bad.iter().position(|&d| d == m).unwrap_or(0); sb_bad[k] = m + 1;
+        let mut sa_bad = sa.clone(); let k = sa_bad.iter().rposition(|&d| d == m).unwrap_or(0); sa_bad[k] = m + 1;
+        let (a, b) = (rand_arr_in(&mut rng, &sa, lo, hi), rand_arr_in(&mut rng, &sb, lo, hi));
+        let good = format!("{op} {ty} {a} {b}");
+        let bad1 = format!("{op} {ty} {a} {}", rand_arr_in(&mut rng, &sb_bad, lo, hi));
+        let bad2 = format!("{op} {ty} {} {b}", rand_arr_in(&mut rng, &sa_bad, lo, hi));
+        out(seq_line(&[bad1, good.clone(), bad2, good.clone()]));
+        out(seq_line(&[good.clone(), format!("{op} {ty} {} {b}", tag(&[0])), good.clone(), format!("{op} {ty} {a} {}", tag(&[0, 2])), good]));
+    } }
+    // ---- stream 6d: the same arguments (and rearranged ones) through different element types back to back
+    for &(n, m, p) in &[(2usize, 3usize, 2usize), (4, 4, 4), (5, 5, 5)] { for (op, sa, sb) in families(n, m, p, 2) {
+        let (a, b) = (rand_vec(&mut rng, &sa, -2, 2), rand_vec(&mut rng, &sb, -2, 2));
+        let a2 = rearrangements(&sa, &a).first().map_or(a.clone(), |x| x.1.clone());
+        let b2 = rearrangements(&sb, &b).first().map_or(b.clone(), |x| x.1.clone());
+        let tys = ["i32", "f64", "i8", "i64", "f32", "i16"];
+        out(seq_line(&tys.iter().map(|ty| format!("{op} {ty} {} {}", lit(&sa, &a), lit(&sb, &b))).collect::<Vec<_>>()));
+        out(seq_line(&tys.iter().enumerate().map(|(i, ty)| if i % 2 == 0 { format!("{op} {ty} {} {}", lit(&sa, &a), lit(&sb, &b)) } else { format!("{op} {ty} {} {}", lit(&sa, &a2), lit(&sb, &b2)) }).collect::<Vec<_>>()));
+    } }
+
+    // ---- stream 8: every length 1..300 (quick: 1..130 and a few beyond) of a non-leading / contracted / trailing axis, every dispatch arm
+    let lens: Vec<usize> = if thorough { (1..=300).collect() } else { (1..=130).chain([160usize, 192, 200, 255, 256, 257, 300]).collect() };
+    for &l in &lens {
+        let fams: Vec<(&str, Vec<usize>, Vec<usize>)> = vec![
+            ("matmul", vec![2, 3], vec![3, l]), ("matmul", vec![2, l], vec![l, 2]), ("matmul", vec![3], vec![3, l]), ("matmul", vec![2, l], vec![l]), ("matmul", vec![l], vec![l, 2]),
+            ("inner", vec![2, l], vec![3, l]), ("matmul", vec![2, 2, l], vec![2, l, 2]), ("matmul", vec![2, 2, 3], vec![2, 3, l]), ("outer", vec![l], vec![3]), ("outer", vec![3], vec![l]),
+            ("dot", vec![l], vec![l, 2]), ("dot", vec![2, l], vec![l]), ("dot", vec![2, l], vec![l, 2]), ("vdot", vec![2, l], vec![l, 2])];
+        for (op, sa, sb) in fams {
+            t += 1; let mut ty = INT_TYS[t % 6];
+            if l > 35 && (ty == "i8" || ty == "i16") { ty = "i32"; }
+            let (lo, hi) = small_range(ty, (2 * l).min(70));
+            out(format!("{op} {ty} {} {}", rand_arr_in(&mut rng, &sa, lo, hi), rand_arr_in(&mut rng, &sb, lo, hi)));
+        }
+    }
+
+    // ---- stream 10: ranks 5..8 (judged by the model alone: the term-list oracle covers ranks up to 3)
+    for (op, sa, sb) in [
+        ("matmul", vec![2usize, 1, 1, 1, 1, 1, 2, 3], vec![2usize, 1, 1, 1, 1, 1, 3, 2]), ("matmul", vec![1, 2, 1, 2, 1, 2, 2, 3], vec![1, 2, 1, 2, 1, 2, 3, 2]), ("matmul", vec![2, 1, 2, 2, 3], vec![3, 2]),
+        ("matmul", vec![3, 1, 1, 2, 3], vec![3, 1, 1, 3, 4]), ("matmul", vec![2, 3], vec![2, 1, 1, 1, 3, 2]), ("matmul", vec![2, 1, 1, 1, 2, 3], vec![3]), ("matmul", vec![3], vec![2, 1, 1, 3, 2]),
+        ("inner", vec![2, 1, 2, 2, 3], vec![2, 3]), ("inner", vec![1, 2, 1, 2, 1, 3], vec![2, 1, 2, 3]), ("inner", vec![1, 1, 2, 1, 1, 2, 1, 3], vec![3]),
+        ("outer", vec![1, 2, 1, 2, 1, 2, 1, 2], vec![2, 2]), ("outer", vec![3], vec![1, 2, 1, 1, 2, 1]), ("vdot", vec![1, 2, 1, 2, 1, 2, 1, 2], vec![16]), ("vdot", vec![2, 1, 2, 1, 2, 1], vec![1, 2, 1, 2, 1, 2]),
+        ("dot", vec![1, 1, 1, 1, 1, 1], vec![2, 3]), ("dot", vec![2, 3], vec![1, 1, 1, 1, 1, 1, 1, 1]),
+    ] { for ty in INT_TYS { out(format!("{op} {ty} {} {}", rand_arr_in(&mut rng, &sa, -3, 3), rand_arr_in(&mut rng, &sb, -3, 3))); } }
+
+    // ---- stream 7: huge operands (16 384 .. 140 000 elements, an axis above 65 536, extents that are not multiples of 32).  The list-backed
+    // model is too slow here: element type `…n` = judged by the native term-list oracle, which is compared with the model on every smaller case
+    let huge: Vec<(&str, Vec<usize>, Vec<usize>)> = vec![
+        ("matmul", vec![130, 130], vec![130, 130]), ("matmul", vec![100, 200], vec![200, 100]), ("matmul", vec![129, 131], vec![131, 129]), ("dot", vec![130, 130], vec![130, 130]),
+        ("vdot", vec![16385], vec![16385]), ("vdot", vec![70000], vec![70000]), ("vdot", vec![2, 70000], vec![70000, 2]), ("vdot", vec![300, 300], vec![300, 300]), ("vdot", vec![10, 11, 12, 13], vec![17160]),
+        ("matmul", vec![33000], vec![33000]), ("dot", vec![70000], vec![70000]), ("inner", vec![70000], vec![70000]),
+        ("matmul", vec![2, 70000], vec![70000, 2]), ("matmul", vec![70000, 2], vec![2, 3]), ("matmul", vec![16385], vec![16385, 2]), ("matmul", vec![2, 16385], vec![16385]), ("matmul", vec![16385, 2], vec![2]),
+        ("dot", vec![16385], vec![16385, 2]), ("dot", vec![2, 33000], vec![33000]), ("dot", vec![2, 33000], vec![33000, 2]),
+        ("inner", vec![40, 30, 30], vec![7, 30]), ("inner", vec![2, 70000], vec![3, 70000]), ("inner", vec![130, 130], vec![130, 130]),
+        ("matmul", vec![40, 30, 30], vec![40, 30, 5]), ("matmul", vec![40, 30, 30], vec![30, 5]), ("matmul", vec![5, 30], vec![40, 30, 30]),
+        ("outer", vec![300], vec![300]), ("outer", vec![16385], vec![3]), ("outer", vec![2], vec![70000]), ("outer", vec![130, 130], vec![2]),
+        ("matmul", vec![130, 130], vec![129, 130]), ("vdot", vec![70000], vec![70001]), ("inner", vec![2, 70000], vec![2, 69999]), ("matmul", vec![16385], vec![16384, 2]),
+    ];
+    for (i, (op, sa, sb)) in huge.iter().enumerate() {
+        let tys = ["i64n", "f64n", "i32n", "f32n"];
+        let chosen: Vec<&str> = if thorough { tys.to_vec() } else { vec![tys[i % 4]] };
+        for ty in chosen { out(format!("{op} {ty} {} {}", rand_arr_in(&mut rng, sa, -3, 3), rand_arr_in(&mut rng, sb, -3, 3))); }
+    }
+    // 70 000 rows x a vector: the crate's row split is quadratic in the number of rows (6 s per call) - thorough tier only
+    if thorough { out(format!("matmul i64n {} {}", rand_arr_in(&mut rng, &[70000, 2], -3, 3), rand_arr_in(&mut rng, &[2], -3, 3))); }
+}
+
+fn gen(tier: &str, seed: u64, out: &mut dyn FnMut(String)) {
+    // the streams of rounds 1 and 2, unchanged; every 16th short line A is also kept, with its predecessor B, as the self-contained sequence B A B
+    let mut extra: Vec<String> = vec![];
+    {
+        let mut prev: Option<String> = None; let mut k = 0usize;
+        let mut tee = |l: String| {
+            if l.len() <= 300 && !l.starts_with("dot ") {
+                k += 1;
+                if k % 16 == 0 { if let Some(p) = &prev { if *p != l { extra.push(format!("seq {p} | {l} | {p}")); } } }
+                prev = Some(l.clone());
+            }
+            out(l);
+        };
+        gen_base(tier, seed, &mut tee);
+    }
+    for l in extra { out(l); }
+    gen_r3(tier, seed, out);
+    out("tally".to_string());
+}
+
 // ------------------------------------------------------------------------------------------------ independent reference
 
 /// how the code documents the accumulation of one entry
@@ -464,6 +732,28 @@ fn call<N: Num>(op: &str, a: &Array<N>, b: &Array<N>, chained: bool) -> Option<R
     Some(match r { Err(_) => Real::Panic, Ok(None) => return None, Ok(Some(Err(e))) => Real::Err(err_name(&e)), Ok(Some(Ok(x))) => Real::Ok(x) })
 }
 
+/// the SAME object on both sides: `a.op(&a)`
+fn call_alias<N: Num>(op: &str, a: &Array<N>) -> Option<Real<N>> {
+    let r = catch_unwind(AssertUnwindSafe(|| -> Option<Result<Array<N>, ArrayError>> {
+        Some(match op { "matmul" => a.matmul(a), "dot" => a.dot(a), "vdot" => a.vdot(a), "inner" => a.inner(a), "outer" => a.outer(a), _ => return None })
+    }));
+    Some(match r { Err(_) => Real::Panic, Ok(None) => return None, Ok(Some(Err(e))) => Real::Err(err_name(&e)), Ok(Some(Ok(x))) => Real::Ok(x) })
+}
+
+/// the operands once more, built another way: `clone_from` into an existing array of another shape; `IntoIterator` by value and by
+/// reference into `FromIterator` through a `filter` (size hint not exact), then `reshape`.  `None` when a shape cannot be rebuilt that way
+fn rebuilt<N: Num>(a: &Array<N>, b: &Array<N>, sha: &[usize], shb: &[usize]) -> Option<(Array<N>, Array<N>)> {
+    catch_unwind(AssertUnwindSafe(|| -> Option<(Array<N>, Array<N>)> {
+        let mut a2: Array<N> = Array::new(vec![N::of_i64(1)?, N::of_i64(2)?], vec![2]).ok()?;
+        a2.clone_from(a);
+        let b2 = if shb.len() % 2 == 0 { b.clone().into_iter().filter(|_| true).collect::<Array<N>>() } else { b.into_iter().filter(|_| true).cloned().collect::<Array<N>>() }.reshape(shb).ok()?;
+        if a2.get_shape().ok()? != sha || a2.get_elements().ok()? != a.get_elements().ok()? || b2.get_shape().ok()? != shb || b2.get_elements().ok()? != b.get_elements().ok()? { return None; }
+        Some((a2, b2))
+    })).ok().flatten()
+}
+
+fn line_hash(parts: &[&str]) -> u64 { let mut h = 0xcbf29ce484222325u64; for p in parts { for b in p.bytes() { h = (h ^ b as u64).wrapping_mul(0x100000001b3); } h = h.wrapping_mul(31); } h }
+
 /// integer text of a real outcome; `Err(detail)` when the result is malformed or holds a non-integer
 fn int_text<N: Num>(r: &Real<N>) -> Result<String, String> {
     match r {
@@ -484,7 +774,7 @@ fn parse_ok(expected: &str) -> Option<(Vec<usize>, Vec<i128>)> {
     Some((shape, elems))
 }
 
-fn exec_int<N: Num>(op: &str, ty: &str, sa: &str, sb: &str, expected: &str) -> Option<Verdict> {
+fn exec_int<N: Num>(op: &str, ty: &str, sa: &str, sb: &str, expected: &str, follow: bool) -> Option<Verdict> {
     let ((sha, ea), (shb, eb)) = (parse_arr_raw(sa), parse_arr_raw(sb));
     let va: Vec<N> = ea.iter().map(|&v| N::of_i64(v)).collect::<Option<_>>()?;
     let vb: Vec<N> = eb.iter().map(|&v| N::of_i64(v)).collect::<Option<_>>()?;
@@ -497,7 +787,45 @@ fn exec_int<N: Num>(op: &str, ty: &str, sa: &str, sb: &str, expected: &str) -> O
         Ok(c) => return Some(Verdict::Mismatch { observed: format!("RECEIVER-DIVERGENCE chained call gives `{}`, plain call `{}`", truncate(&c, 300), truncate(&observed, 300)), detail: "the call on Ok(array) through the Result receiver differs from the plain call".into() }),
         Err(d) => return Some(Verdict::Mismatch { observed: "RECEIVER-DIVERGENCE chained call gives a malformed result".into(), detail: d }),
     }
+    // aliasing: equal operands are also passed as the very same object
+    if sha == shb && ea == eb {
+        N_ALIAS.fetch_add(1, Relaxed);
+        match int_text(&call_alias(op, &a)?) {
+            Ok(c) if c == observed => {}
+            Ok(c) => return Some(Verdict::Mismatch { observed: format!("ALIAS-DIVERGENCE `a.{op}(&a)` (the same object on both sides) gives `{}`, two equal objects give `{}`", truncate(&c, 300), truncate(&observed, 300)), detail: format!("the result must not depend on whether the two operands are the same object; model says `{}`", truncate(expected, 300)) }),
+            Err(d) => return Some(Verdict::Mismatch { observed: format!("ALIAS-DIVERGENCE `a.{op}(&a)` gives a malformed result"), detail: d }),
+        }
+    }
+    // operands built another way (clone_from, IntoIterator -> filter -> FromIterator -> reshape): a share of the cases
+    if line_hash(&[op, ty, sa, sb]) % 4 == 0 && ea.len() + eb.len() <= 5000 && !sha.iter().chain(shb.iter()).any(|&d| d == 0) {
+        if let Some((a2, b2)) = rebuilt(&a, &b, &sha, &shb) {
+            N_BUILD.fetch_add(1, Relaxed);
+            match int_text(&call(op, &a2, &b2, false)?) {
+                Ok(c) if c == observed => {}
+                Ok(c) => return Some(Verdict::Mismatch { observed: format!("CONSTRUCTION-DIVERGENCE operands built by clone_from / collect give `{}`, operands built by Array::new give `{}`", truncate(&c, 300), truncate(&observed, 300)), detail: "equal arrays must give equal products however they were built".into() }),
+                Err(d) => return Some(Verdict::Mismatch { observed: "CONSTRUCTION-DIVERGENCE malformed result".into(), detail: d }),
+            }
+        }
+    }
     if expected == "open" { return Some(Verdict::Open(observed)); }
+    // huge operands: the model answers `native`; the native term-list oracle (compared with the model on every smaller case) judges alone
+    if expected == "native" {
+        N_NATIVE.fetch_add(1, Relaxed);
+        return Some(match reference(op, &sha, &shb) {
+            Ref::Refuse => if class_of(&observed) == "err" { Verdict::Match(observed) } else { Verdict::Mismatch { observed: truncate(&observed, 300), detail: "contracted lengths differ: the call must be refused with an error".into() } },
+            Ref::Terms { shape, entries, .. } => match exact_sums(&entries, &ea, &eb) {
+                Some((sums, exact)) if exact && sums.iter().all(|&s| fits::<N>(s)) => {
+                    let want = format!("ok {}:{}", show_list(&shape), show_list(&sums));
+                    if observed == want { Verdict::Match(truncate(&observed, 200)) } else {
+                        let (got, wnt): (Vec<&str>, Vec<&str>) = (observed.split(',').collect(), want.split(',').collect());
+                        let k = got.iter().zip(wnt.iter()).position(|(x, y)| x != y).unwrap_or(got.len().min(wnt.len()));
+                        Verdict::Mismatch { observed: truncate(&observed, 300), detail: format!("native term-list oracle (defining sums over the shared index) gives `{}`; first difference at flat position {k}: got {:?}, defining sum {:?}", truncate(&want, 300), got.get(k), wnt.get(k)) } }
+                }
+                _ => Verdict::Open(truncate(&observed, 200)),
+            },
+            Ref::NotCovered => return None,
+        });
+    }
     // zero-length axes are outside the statement (lengths 1..): the real crate refuses most empty operands (`zip` / `broadcast` of an
     // empty array is an error) where the model, which has no such arm, returns the empty sum.  Held to: no divergence between the
     // receivers (above), and the model's answer whenever the crate does return a value or panics; a refusal is left open
@@ -511,13 +839,16 @@ fn exec_int<N: Num>(op: &str, ty: &str, sa: &str, sb: &str, expected: &str) -> O
     // the independent reference: (1) it must agree with the model, (2) it says whether the case lies inside the statement
     // (defining sums representable: every product / partial sum exact in f64, every entry inside the element type)
     let narrow = !TYS.contains(&ty);
+    let mut oracle: Option<(Vec<usize>, Vec<Vec<(usize, usize)>>)> = None;
     match reference(op, &sha, &shb) {
-        Ref::Refuse => { if class_of(expected) != "err" { return None; } }
+        Ref::Refuse => { if class_of(expected) != "err" { return None; } N_VALIDATED.fetch_add(1, Relaxed); }
         Ref::Terms { shape, entries, .. } => {
             match exact_sums(&entries, &ea, &eb) {
                 Some((sums, exact)) => {
                     match parse_ok(expected) { Some((msh, mel)) => { if msh != shape || mel != sums { return None; } } None => return None }
+                    N_VALIDATED.fetch_add(1, Relaxed);
                     if !exact || !sums.iter().all(|&s| fits::<N>(s)) { return Some(Verdict::Open(observed)); }
+                    oracle = Some((shape, entries));
                 }
                 None => return Some(Verdict::Open(observed)),
             }
@@ -531,7 +862,30 @@ fn exec_int<N: Num>(op: &str, ty: &str, sa: &str, sb: &str, expected: &str) -> O
             }
         }
     }
-    Some(compare_default(observed, expected))
+    let verdict = compare_default(observed, expected);
+    // follow-ups: directly after the case itself the same call with one operand replaced by a same-shape rearrangement of its entries
+    // (transposed entries, swapped rows, same-sum change, …), judged by the term-list oracle that has just been found equal to the model
+    if let (true, Verdict::Match(_), Some((shape, entries))) = (follow, &verdict, &oracle) {
+        if ea.len() + eb.len() <= 6000 {
+            let kmax = if ea.len() + eb.len() <= 64 { 3 } else { 1 };
+            let mut variants: Vec<(&'static str, &'static str, Vec<i64>, Vec<i64>)> = vec![];
+            for (what, b2) in rearrangements(&shb, &eb).into_iter().take(kmax) { variants.push(("right", what, ea.clone(), b2)); }
+            for (what, a2) in rearrangements(&sha, &ea).into_iter().take(kmax) { variants.push(("left", what, a2, eb.clone())); }
+            for (side, what, ea2, eb2) in variants {
+                let (va2, vb2): (Option<Vec<N>>, Option<Vec<N>>) = (ea2.iter().map(|&v| N::of_i64(v)).collect(), eb2.iter().map(|&v| N::of_i64(v)).collect());
+                let (Some(va2), Some(vb2)) = (va2, vb2) else { continue };
+                let want = match exact_sums(entries, &ea2, &eb2) { Some((sums, true)) if sums.iter().all(|&s| fits::<N>(s)) => format!("ok {}:{}", show_list(shape), show_list(&sums)), _ => continue };
+                let (a2, b2) = (Array::new(va2, sha.clone()).ok()?, Array::new(vb2, shb.clone()).ok()?);
+                N_FOLLOW.fetch_add(1, Relaxed);
+                let got = match int_text(&call(op, &a2, &b2, false)?) { Ok(s) => s, Err(d) => format!("ok <malformed: {d}>") };
+                if got != want {
+                    return Some(Verdict::Mismatch { observed: format!("FOLLOW-UP-DIVERGENCE directly after this case, `{op}` with the {side} operand replaced by {what} ({}) gives `{}`", lit(if side == "left" { &sha } else { &shb }, if side == "left" { &ea2 } else { &eb2 }), truncate(&got, 300)),
+                        detail: format!("the defining sums for the rearranged operand are `{}` (native term-list oracle, equal to the model on the case itself); the answer to the case itself was right, so the call depends on the previous call", truncate(&want, 300)) });
+                }
+            }
+        }
+    }
+    Some(verdict)
 }
 
 // ---- class-coded float operands
@@ -573,6 +927,19 @@ fn exec_cls<N: Num>(op: &str, sa: &str, sb: &str, expected: &str, table: fn(usiz
         (p, q) => brief(p) == brief(q),
     };
     if !rec_same { return Some(Verdict::Mismatch { observed: format!("RECEIVER-DIVERGENCE chained call gives `{}`, plain call `{}`", brief(&chained), observed), detail: "the call on Ok(array) through the Result receiver differs from the plain call".into() }); }
+    // aliasing: equal operands are also passed as the very same object
+    if sha == shb && ea == eb {
+        N_ALIAS.fetch_add(1, Relaxed);
+        let aliased = call_alias(op, &a)?;
+        let same = match (&plain, &aliased) {
+            (Real::Ok(x), Real::Ok(y)) => x.get_shape().unwrap() == y.get_shape().unwrap() && { let (p, q) = (x.get_elements().unwrap(), y.get_elements().unwrap()); p.len() == q.len() && p.iter().zip(q.iter()).all(|(u, v)| same_number(u.f(), v.f())) },
+            (p, q) => brief(p) == brief(q),
+        };
+        if !same {
+            let vals = |r: &Real<N>| match r { Real::Ok(x) => format!("{:?}", x.get_elements().unwrap().iter().take(12).map(|v| v.f()).collect::<Vec<f64>>()), other => brief(other) };
+            return Some(Verdict::Mismatch { observed: format!("ALIAS-DIVERGENCE `a.{op}(&a)` (the same object on both sides) gives {} {}, two equal objects give {} {}", brief(&aliased), vals(&aliased), observed, vals(&plain)), detail: "the result must not depend on whether the two operands are the same object".into() });
+        }
+    }
     if expected == "open" { return Some(Verdict::Open(observed)); }
     let expected = expected.split_once(" | matmul ").map_or(expected, |(m, _)| m);
     let r = reference(op, &sha, &shb);
@@ -605,24 +972,79 @@ fn exec_cls<N: Num>(op: &str, sa: &str, sb: &str, expected: &str, table: fn(usiz
     }
 }
 
-fn exec(op: &str, args: &[&str], expected: &str) -> Option<Verdict> {
+fn exec_single(op: &str, args: &[&str], expected: &str, follow: bool) -> Option<Verdict> {
     if args.len() != 3 || !OPS.contains(&op) { return None; }
     let (ty, sa, sb) = (args[0], args[1], args[2]);
     match ty {
-        "i16" => exec_int::<i16>(op, ty, sa, sb, expected),
-        "i32" => exec_int::<i32>(op, ty, sa, sb, expected),
-        "i64" => exec_int::<i64>(op, ty, sa, sb, expected),
-        "i8" => exec_int::<i8>(op, ty, sa, sb, expected),
-        "f32" => exec_int::<f32>(op, ty, sa, sb, expected),
-        "f64" => exec_int::<f64>(op, ty, sa, sb, expected),
+        "i16" => exec_int::<i16>(op, ty, sa, sb, expected, follow),
+        "i32" | "i32n" => exec_int::<i32>(op, "i32", sa, sb, expected, follow),
+        "i64" | "i64n" => exec_int::<i64>(op, "i64", sa, sb, expected, follow),
+        "i8" => exec_int::<i8>(op, ty, sa, sb, expected, follow),
+        "f32" | "f32n" => exec_int::<f32>(op, "f32", sa, sb, expected, follow),
+        "f64" | "f64n" => exec_int::<f64>(op, "f64", sa, sb, expected, follow),
         "f64c" => exec_cls::<f64>(op, sa, sb, expected, f64_class),
         "f32c" => exec_cls::<f32>(op, sa, sb, expected, f32_class),
         _ => None,
     }
 }
 
+/// `seq`: the calls of the line back to back on this thread, each judged like a single case (without follow-ups in between)
+fn exec_seq(args: &[&str], expected: &str) -> Option<Verdict> {
+    let groups: Vec<&[&str]> = args.split(|t| *t == "|").collect();
+    let exps: Vec<&str> = expected.split(" ;; ").collect();
+    if groups.is_empty() || groups.len() != exps.len() { return None; }
+    let mut obs = vec![]; let mut open = false;
+    for (k, (g, e)) in groups.iter().zip(exps.iter()).enumerate() {
+        if g.len() != 4 { return None; }
+        match exec_single(g[0], &g[1..], e, false)? {
+            Verdict::Match(o) => obs.push(truncate(&o, 80)),
+            Verdict::Open(o) => { open = true; obs.push(truncate(&o, 80)); }
+            Verdict::Mismatch { observed, detail } => return Some(Verdict::Mismatch {
+                observed: format!("step {} of {} (`{} {}`): {}", k + 1, groups.len(), g[0], truncate(&g[1..].join(" "), 300), observed),
+                detail: format!("the steps are executed back to back on one thread; for this step the model says `{}`; {}", truncate(e, 300), detail) }),
+        }
+    }
+    let text = truncate(&obs.join(" ;; "), 400);
+    Some(if open { Verdict::Open(text) } else { Verdict::Match(text) })
+}
+
+thread_local! {
+    /// the previous single case of this thread that was answered correctly: (op, args, expected, signature of its verdict)
+    static PREV: RefCell<Option<(String, Vec<String>, String, String)>> = const { RefCell::new(None) };
+}
+fn signature(v: &Verdict) -> Option<String> { match v { Verdict::Match(o) => Some(format!("match {o}")), Verdict::Open(o) => Some(format!("open {o}")), Verdict::Mismatch { .. } => None } }
+
+fn exec(op: &str, args: &[&str], expected: &str) -> Option<Verdict> {
+    if op == "tally" {
+        return Some(Verdict::Match(format!("ok tally: native term-list oracle found equal to the model on {} cases of this run; it judged {} follow-up calls on rearranged operands and {} huge cases alone; {} calls with the same object on both sides; {} A-B-A re-runs; {} cases repeated on operands rebuilt by clone_from / collect",
+            N_VALIDATED.load(Relaxed), N_FOLLOW.load(Relaxed), N_NATIVE.load(Relaxed), N_ALIAS.load(Relaxed), N_ABA.load(Relaxed), N_BUILD.load(Relaxed))));
+    }
+    if op == "seq" { return exec_seq(args, expected); }
+    let mut verdict = exec_single(op, args, expected, true)?;
+    // A-B-A: the previous case A is run again after this case B and must answer exactly as before
+    let prev = PREV.with(|p| p.borrow_mut().take());
+    if let (Some((pop, pargs, pexp, psig)), Some(_)) = (prev, signature(&verdict)) {
+        if pop != op || pargs.iter().map(String::as_str).ne(args.iter().cloned()) {
+            let pa: Vec<&str> = pargs.iter().map(String::as_str).collect();
+            N_ABA.fetch_add(1, Relaxed);
+            let again = exec_single(&pop, &pa, &pexp, false);
+            let sig2 = again.as_ref().and_then(signature);
+            if sig2.as_deref() != Some(psig.as_str()) {
+                let now = match &again { Some(Verdict::Mismatch { observed, detail }) => format!("`{}` ({})", truncate(observed, 300), truncate(detail, 300)), Some(v) => signature(v).unwrap_or_default(), None => "<harness error>".into() };
+                verdict = Verdict::Mismatch { observed: format!("A-B-A-DIVERGENCE the preceding case `{} {}` answered `{}`; run again directly after this case it answers {}", pop, truncate(&pargs.join(" "), 300), truncate(&psig, 200), now),
+                    detail: "a call must not depend on the calls made before it (the case itself was answered as the model says)".into() };
+            }
+        }
+    }
+    if let Some(sig) = signature(&verdict) {
+        if args.iter().map(|a| a.len()).sum::<usize>() <= 4000 { PREV.with(|p| *p.borrow_mut() = Some((op.to_string(), args.iter().map(|a| a.to_string()).collect(), expected.to_string(), sig))); }
+    }
+    Some(verdict)
+}
+
 /// non-trivial: both operands have more than one element (so a sum over a shared index or a refusal is at stake)
-fn nontrivial(_op: &str, args: &[&str]) -> bool {
+fn nontrivial(op: &str, args: &[&str]) -> bool {
+    if op == "seq" { return args.split(|t| *t == "|").any(|g| g.len() == 4 && nontrivial(g[0], &g[1..])); }
     if args.len() != 3 { return false; }
     let (a, _) = parse_arr_raw(args[1]);
     let (b, _) = parse_arr_raw(args[2]);
